@@ -11,7 +11,7 @@ import threading
 import core
 
 PID = 'C15'
-PROOF_MODULES = ['ChamProofs.Props.C15']
+PROOF_MODULES = ['ChamProofs.Props.C15', 'ChamProofs.Props.C15Load']
 THEOREMS = ['ChamVerif.Sys.Cache.C15_crash_safe', 'ChamVerif.Sys.Cache.C15_build_stores', 'ChamVerif.Sys.Cache.C15_shared_tmp_counterexample',
             'ChamVerif.Sys.Cache.C15_sound', 'ChamVerif.Sys.Cache.C15_keyed_covers_partial', 'ChamVerif.Sys.Cache.C15_keyed_covers_counterexample',
             'ChamVerif.Sys.Cache.C15_probe_sane',
@@ -19,7 +19,8 @@ THEOREMS = ['ChamVerif.Sys.Cache.C15_crash_safe', 'ChamVerif.Sys.Cache.C15_build
             'ChamVerif.Sys.Cache.C15_body_key_injective', 'ChamVerif.Sys.Cache.C15_body_key_ignore_counterexample',
             'ChamVerif.Sys.Cache.C15_body_key_tie', 'ChamVerif.Sys.Cache.C15_key_bytes_injective',
             'ChamVerif.Sys.Cache.C15_key_bytes_old_counterexample', 'ChamVerif.Sys.Cache.C15_key_layout_tie',
-            'ChamVerif.Sys.Cache.C15_key_bytes_file_injective', 'ChamVerif.Sys.Cache.C15_key_file_layout_tie']
+            'ChamVerif.Sys.Cache.C15_key_bytes_file_injective', 'ChamVerif.Sys.Cache.C15_key_file_layout_tie',
+            'ChamVerif.Sys.Load.inv_step', 'ChamVerif.Sys.Load.C15_loaded_module_complete', 'ChamVerif.Sys.Load.C15_load_registered_first_counterexample']
 LEVEL_TEXT = ('Proved in Lean over the file-system step model of ModuleLoader.build/get: two writers of one entry with unique temporary names, run '
               'under any schedule and crashing at any points (arbitrary event list, no length bound), leave an entry that is absent, unchanged, '
               'or the complete module of one writer — never empty, header-only or torn (C15_crash_safe, invariant over every step); an '
@@ -356,6 +357,50 @@ for i in range(int(sys.argv[1])):
     [t.join() for t in ts]
 json.dump(bad, sys.stdout)
 '''
+TRACE_SCRIPT = r'''
+# threads of one process loading the same cached module (the cache is warm): record the labelled hook points of ModuleLoader._load
+# in the order they are reached; a delay at chosen points widens the windows between the steps
+import json, sys, threading, time
+import chameleon.loader as L
+from chameleon import PageTemplate
+k, nthreads, delay_at = int(sys.argv[1]), int(sys.argv[2]), sys.argv[3]
+out = []
+for i in range(k):
+    src = '<p title="t%d">${%d + 1} warm</p>' % (i, i)
+    want = '<p title="t%d">%d warm</p>' % (i, i + 1)
+    events = []
+    lock = threading.Lock()
+    ids = {}
+    def hook(label, *a):
+        if not label.startswith('load:'):
+            return
+        t = ids.get(threading.get_ident())
+        if t is None:
+            return
+        with lock:
+            events.append([t, label[5:]])
+        if label == delay_at:
+            time.sleep(0.02)
+    L._verif_hook = hook
+    barrier = threading.Barrier(nthreads)
+    results = [None] * nthreads
+    def work(t):
+        ids[threading.get_ident()] = t
+        barrier.wait()
+        try:
+            r = PageTemplate(src)()
+        except BaseException as e:
+            r = 'ERR %s: %s' % (type(e).__name__, str(e).split('\n')[0][:80])
+        with lock:
+            events.append([t, 'returned'])
+        results[t] = (r == want)
+    ts = [threading.Thread(target=work, args=(t,)) for t in range(nthreads)]
+    [t.start() for t in ts]
+    [t.join() for t in ts]
+    L._verif_hook = None
+    out.append({'events': events, 'results': results, 'src': src})
+json.dump(out, sys.stdout)
+'''
 AFTER_SCRIPT = r'''
 from chameleon import PageTemplate
 print(PageTemplate('<p title="t">${1 + 1} crash</p>')())
@@ -454,6 +499,35 @@ def oracle(ctx):
         if bad:
             ctx.violation('threads that cook the same template at the same time over a warm cache directory must all render as without a cache',
                           {'templates': k, 'threads': 4, 'cache': 'filled by an earlier process'}, expected='every thread renders <p>… n</p>', actual=bad[:5])
+        # (e) the same situation with the labelled points of ModuleLoader._load recorded: the trace of every real run must be a run of
+        # the step model (Sys/Load.lean: after each event the model has that thread at the program counter the event names), and the
+        # model's verdict for it — every thread got a complete module — must be what the threads saw
+        tdir = os.path.join(root, 'trace')
+        os.mkdir(tdir)
+        env = dict(os.environ, CHAMELEON_CACHE=tdir, MALTHE_CHAMELEON_VERIF='1')
+        kk = 6 if ctx.tier == 'quick' else 30
+        subprocess.run(['/venv/bin/python', '-W', 'ignore', '-c', WARM_SCRIPT, str(kk)], capture_output=True, text=True, env=env, timeout=300)
+        for delay_at in ('load:created', 'load:executed', 'load:locked', 'none'):
+            q = subprocess.run(['/venv/bin/python', '-W', 'ignore', '-c', TRACE_SCRIPT, str(kk), '3', delay_at], capture_output=True, text=True, env=env, timeout=600)
+            try:
+                runs = json.loads(q.stdout)
+            except Exception:
+                ctx.violation('the trace worker failed', {'delay_at': delay_at}, actual=q.stderr[-400:])
+                continue
+            outs = core.par_batch([{'op': 'load', 'threads': 3, 'events': r['events']} for r in runs])
+            for r, o in zip(runs, outs):
+                ctx.count('evaluations')
+                nt += 1
+                m = o.get('ok', {})
+                if m.get('mismatches'):
+                    ctx.disagree('ModuleLoader._load: the hook trace of a real run is not a run of the step model', {'events': r['events'], 'delay_at': delay_at},
+                                 model=m, impl=r)
+                if not all(r['results']):
+                    ctx.violation('a thread of one process got an incomplete module from the warm cache', {'template': r['src'], 'events': r['events']},
+                                  expected='every thread renders as without a cache', actual=r['results'])
+                elif m.get('results') is not None and (len(m['results']) != 3 or not all(m['results'])):
+                    ctx.disagree('ModuleLoader._load: the model says a thread of this trace gets an incomplete module, the threads rendered fine',
+                                 {'events': r['events']}, model=m, impl=r)
     finally:
         shutil.rmtree(root, ignore_errors=True)
     ctx.counters['nontrivial'] = nt
